@@ -31,11 +31,11 @@ func (k IOKind) String() string {
 type IOOp struct {
 	Kind    IOKind
 	Call    *ssa.Call
-	Stream  ssa.Value    // canonical stream value (interfaces stripped)
-	Order   *ssa.Global  // byte-order object (encoding/binary.LittleEndian …), nil if none / unknown
-	OrderOK bool         // the byte-order operand was resolved to a global
-	Data    ssa.Value    // payload value (interfaces stripped); for reads the destination pointer / buffer
-	Type    types.Type   // static wire type of the payload (pointee for binary.Read; elem slice kept as slice)
+	Stream  ssa.Value     // canonical stream value (interfaces stripped)
+	Order   *ssa.Global   // byte-order object (encoding/binary.LittleEndian …), nil if none / unknown
+	OrderOK bool          // the byte-order operand was resolved to a global
+	Data    ssa.Value     // payload value (interfaces stripped); for reads the destination pointer / buffer
+	Type    types.Type    // static wire type of the payload (pointee for binary.Read; elem slice kept as slice)
 	Callee  *ssa.Function // IOCall: the callee ; IOTyped: the method
 	Loop    *IV           // innermost counted loop containing the call (nil: straight-line)
 	InLoop  bool          // inside some loop (counted or not)
@@ -48,7 +48,74 @@ func orderOf(v ssa.Value) (*ssa.Global, bool) {
 	v = stripIface(v)
 	if ld, ok := v.(*ssa.UnOp); ok && ld.Op == token.MUL {
 		if g, ok := ld.X.(*ssa.Global); ok {
+			if g.Pkg != nil && g.Pkg.Pkg.Path() != binPkg {
+				// a package-level alias (`var order = binary.LittleEndian`) assigned exactly once, in the initialiser
+				if r, ok := aliasedGlobal(g); ok {
+					return r, true
+				}
+			}
 			return g, true
+		}
+	}
+	return nil, false
+}
+
+// aliasedGlobal resolves a package-level variable that is stored exactly once
+// in its package (by the initialiser) with the value of another package-level
+// variable.
+func aliasedGlobal(g *ssa.Global) (*ssa.Global, bool) {
+	var stores []*ssa.Store
+	addrTaken := false
+	var scan func(fn *ssa.Function)
+	scan = func(fn *ssa.Function) {
+		if fn == nil {
+			return
+		}
+		for _, b := range fn.Blocks {
+			for _, in := range b.Instrs {
+				if st, ok := in.(*ssa.Store); ok && st.Addr == ssa.Value(g) {
+					stores = append(stores, st)
+				}
+				for _, op := range in.Operands(nil) {
+					if *op == ssa.Value(g) {
+						switch x := in.(type) {
+						case *ssa.UnOp:
+						case *ssa.Store:
+							if x.Val == ssa.Value(g) {
+								addrTaken = true
+							}
+						default:
+							addrTaken = true
+						}
+					}
+				}
+			}
+		}
+		for _, a := range fn.AnonFuncs {
+			scan(a)
+		}
+	}
+	for _, m := range g.Pkg.Members {
+		switch x := m.(type) {
+		case *ssa.Function:
+			scan(x)
+		case *ssa.Type:
+			for _, t := range []types.Type{x.Type(), types.NewPointer(x.Type())} {
+				ms := g.Pkg.Prog.MethodSets.MethodSet(t)
+				for i := 0; i < ms.Len(); i++ {
+					if f := g.Pkg.Prog.MethodValue(ms.At(i)); f != nil && f.Pkg == g.Pkg {
+						scan(f)
+					}
+				}
+			}
+		}
+	}
+	if addrTaken || len(stores) != 1 || stores[0].Parent().Name() != "init" {
+		return nil, false
+	}
+	if ld, ok := stripIface(stores[0].Val).(*ssa.UnOp); ok && ld.Op == token.MUL {
+		if r, ok := ld.X.(*ssa.Global); ok {
+			return r, true
 		}
 	}
 	return nil, false
